@@ -347,7 +347,23 @@ def c01_silf():
                         unwindset={"vh_bytes": L + 2, "readClassMap": L // 2 + 3, "readClassOffsets": ncls + 3, "findClassIndex": L // 2 + 3, "getClassGlyph": L // 2 + 3, "vh_classmap": ncls + 3,
                                    "lid:ll_malloc_split": len(cases) + 2, "lid:ll_calloc_split": len(cases) + 2}, cc_defs=["LL_MEM_CASES=" + ",".join(map(str, cases))]))
     return qs
-C01_PARTS = [c01_cmap, c01_name, c01_decoder, feat_queries, c01_pass, c01_silf]
+def c01_silfhdr():
+    qs = []
+    SSTUBS = ["_ZN9graphite24Silf12readClassMapEPKhmjRNS_5ErrorE", "_ZN9graphite24Pass8readPassEPKhmmRNS_4FaceENS_8passtypeEjRNS_5ErrorE"]
+    for v3 in (0, 1):
+        for (nj, nc, nt, np_, nps) in ((0, 0, 0, 0, 0), (1, 0, 0, 0, 0), (0, 1, 1, 0, 0), (0, 0, 0, 1, 0), (0, 0, 0, 0, 1), (1, 1, 1, 1, 2), (0, 0, 0, 2, 1)):
+            base = (8 if v3 else 0) + 20 + 8 * nj + 18 + 2 * nc + 4 * nt + 4 * np_ + 8 + 6 * nps     # end of the pseudo map
+            for L in sorted({20 if not v3 else 28, base - 9, base - 8, base - 2, base - 1, base, base + 1, base + 2, base + 6}):
+                if L < 18: continue
+                quick = (np_ == 0 and ((nj, nc, nt, nps) in ((0, 0, 0, 0), (1, 0, 0, 0)) or L in (base - 1, base, base + 1))) or ((nj, nc, nt, np_, nps) == (0, 0, 0, 1, 0) and L in (base, base + 1, base + 6))     # one pass costs ~120 s (new Pass[1])
+                qs.append(Q(f"silfhdr_v{3 if v3 else 2}_j{nj}c{nc}t{nt}p{np_}s{nps}_len{L}", "silfhdr.cpp", "vh_silf_header",
+                            {"LEN": L, "VER3": v3, "NJ": nj, "NC": nc, "NT": nt, "NP": np_, "NPS": nps}, unwind=6,
+                            unwindset={"vh_bytes": L + 2, "readGraphite": max(nj, np_, nps) + 3, "releaseBuffers": np_ + 3, "Pass": np_ + 3, "_Pass": np_ + 3, "lid:PassD": np_ + 3, "lid:PassC": np_ + 3,
+                                       "lid:ll_malloc_split": 8, "lid:ll_calloc_split": 8},
+                            stubs=SSTUBS, unit_flags={"Silf": ["-fno-inline"], "Pass": ["-fno-inline"]}, cc_defs=["LL_MEM_CASES=" + ",".join(map(str, sorted({0, 8 * nps, 4 * nj, 8 + 144 * np_})))],
+                            tiers=("quick", "thorough") if quick else ("thorough",), timeout=600 if np_ else None))
+    return qs
+C01_PARTS = [c01_cmap, c01_name, c01_decoder, feat_queries, c01_pass, c01_silf, c01_silfhdr]
 @prop("C01")
 def c01():
     qs = []
